@@ -131,6 +131,7 @@ func init() {
 		Level: "exploration",
 		Rule: "every ordered tree shape up to a node bound (Dyck-word enumeration) decorated with hostile names and distances, every single byte as a one-byte name, all pairs over the special set ( ) , : ; ' _ space TAB LF CR, " +
 			"random trees up to 2000 nodes, deep chains, and sequences of up to 6 trees joined by separators; each written, checked for condensed form, read back and compared structurally (NaN==NaN, -0==0); " +
+			"0.6-0.8 M distinct names and branch lengths through one Reader (one huge tree, one long stream); " +
 			"non-trivial = tree with at least 2 nodes or a name that needs quoting/escaping; distinct by hash of the written text",
 		Assumptions: []string{"branch length 0 (and -0) means 'none'", "names are arbitrary byte strings"},
 		MinEvents:   map[string]int64{"trees_roundtripped": 500, "quoted_names": 100, "sequences": 50},
@@ -142,6 +143,7 @@ func init() {
 			{Name: "sequences", TShards: 2, Run: c05Sequences},
 			{Name: "long", TShards: 2, Run: c05Long},
 			{Name: "sizes", TShards: 6, Run: c05Sizes},
+			{Name: "distinct", TShards: 4, Run: c05Distinct},
 		},
 	})
 }
@@ -421,5 +423,76 @@ func c05Sizes(c *Ctx) {
 			})
 			idx++
 		}
+	}
+}
+
+// c05Distinct pushes a very large number of DISTINCT names and branch lengths
+// through one Reader — one huge tree, or one long stream of small trees: a
+// reader that caches, interns or deduplicates tokens by anything weaker than
+// their full content shows up only at this cardinality.
+func c05Distinct(c *Ctx) {
+	n := c.N(2, 12)
+	for i := 0; i < n; i++ {
+		c.Case(int64(i), func(k *K) {
+			r := k.Rand()
+			total := 300000 + r.IntN(100000)
+			prefixes := []string{"taxon", "OTU", "sp", "seq_", "Homo sapiens ", "n", ""}
+			serial := 0
+			label := func(nodes []*newick.Node) {
+				for _, nd := range nodes {
+					serial++
+					switch r.IntN(4) {
+					case 0:
+						nd.Name = fmt.Sprint(pick(r, prefixes), serial)
+					case 1:
+						nd.Name = fmt.Sprintf("%s%d.%c", pick(r, prefixes), serial, 'a'+r.IntN(26))
+					case 2:
+						nd.Name = fmt.Sprintf("%x", uint64(serial)*0x9E3779B97F4A7C15)
+					default:
+						nd.Name = fmt.Sprint(serial)
+					}
+					nd.Distance = float64(1+r.IntN(999999)) / 1e6 * float64(1+r.IntN(3))
+				}
+			}
+			var text bytes.Buffer
+			var want []item
+			if i%2 == 0 {
+				root, nodes := randomTree(r, total, r.IntN(4))
+				label(nodes)
+				text.Write(newickWrite(k, root))
+				want = append(want, item{Key: treeKey(root)})
+			} else {
+				for serial < total {
+					root, nodes := randomTree(r, 1+r.IntN(8), r.IntN(4))
+					label(nodes)
+					m, _ := root.MarshalText()
+					text.Write(m)
+					text.WriteString(pick(r, treeSeparators))
+					want = append(want, item{Key: treeKey(root)})
+				}
+			}
+			k.Input("distinct_tokens", 2*serial)
+			k.Input("trees", len(want))
+			got, over := collect(codecByName("newick").seq(bytes.NewReader(text.Bytes())), len(want)+3)
+			if over || !sameTrace(got, want) {
+				msg := fmt.Sprintf("%d items, want %d", len(got), len(want))
+				for j := 0; j < len(got) && j < len(want); j++ {
+					if got[j].Err != want[j].Err || got[j].Key != want[j].Key {
+						g, w := got[j].Key, want[j].Key
+						p := 0
+						for p < len(g) && p < len(w) && g[p] == w[p] {
+							p++
+						}
+						msg = fmt.Sprintf("tree %d differs at offset %d of its canonical form: got ...%.80q, want ...%.80q (err=%v)", j, p, g[max(0, p-30):min(len(g), p+40)], w[max(0, p-30):min(len(w), p+40)], got[j].Err)
+						break
+					}
+				}
+				k.Failf("roundtrip-many-distinct", "%d distinct names and lengths through one Reader: %s", 2*serial, msg)
+			}
+			k.Count("trees_roundtripped", int64(len(want)))
+			k.Count("nodes_roundtripped", int64(serial))
+			k.Count("distinct_tokens_one_reader", int64(2*serial))
+			k.Nontrivial([]byte(fmt.Sprint(i, serial)), text.Bytes()[:min(64, text.Len())])
+		})
 	}
 }
